@@ -616,6 +616,11 @@ def run(ctx: Ctx) -> int:
             traceback.print_exc()
             ctx.broken.append(f"harness:exception on circuit {case.key}: {e!r}")
         ctx.log(f"circuit {case.key} qubits={_num_qubits(case.text)} det={int(case.detectors)} evaluations={ctx.evaluations - _e} t={_time.time() - _t:.1f}s")
+        # every compiled graph is its own XLA executable; drop them so that long runs do not exhaust the process's memory maps
+        import gc
+        import jax
+        jax.clear_caches()
+        gc.collect()
     ctx.cov["circuits"] = len(cases)
     if model_usable and not ctx.violations:
         try:
